@@ -6,6 +6,7 @@ import (
 	"strings"
 
 	"kvassverif/internal/core"
+	"kvassverif/internal/e5"
 	"kvassverif/internal/e7"
 )
 
@@ -89,14 +90,19 @@ func init() {
 			"a fitting target may stay unscraped in the judged state only if max-shard is reached and no shard has room for it next to what it holds (the property presupposes enough allowed shards; counted); one workload in six drains all targets early and refills late; " +
 			"real-process special cases (2/8): down-then-up - a target answers 503 from the start, the configuration is reloaded while it is down, then it serves again (bound 120 coordination cycles; the explorer's retry interval is 5 s of wall-clock time); " +
 			"one case in six runs in K8s mode (the simulated pods are listed and scaled by the real Kubernetes replicas/shard managers on a client-go fake) next to two more StatefulSets of the same selector; " +
+			"plus 1/3 flood cases (real explorer + real coordinator, one stub shard with unlimited room): 10200-10800 healthy targets appear at once (the explorer's queue holds 10000); all must reach the shard's list, judged when 100 cycles pass without a new assignment; " +
 			"non-trivial = world with >= 2 shards at some time and >= 1 move or scale event; distinct = hash of the scenario",
 		Assumptions: []string{
 			"targets whose size equals a limit exactly (they fit nowhere yet are not 'larger than the limit') and initial placements of oversized targets are not generated",
 			"the explorer is a stub with the real one's sharing semantics (C20 covers the real explorer)",
 			"B was calibrated on the repaired tree (largest observed convergence cycle is recorded in evidence under distinct_observed.convergence_cycle) and is fixed in the code",
 		},
-		NumCases: func(tier string) int { return c03Base(tier) + e7.Cases(tier) },
+		NumCases: func(tier string) int { return c03Base(tier) + e7.Cases(tier) + c03FloodCases(tier) },
 		Run: func(w *core.WorkerCtx, idx int) *core.CaseResult {
+			if base := c03Base(w.Tier) + e7.Cases(w.Tier); idx >= base {
+				// real explorer + real coordinator: more new targets in one cycle than the explorer's queue holds
+				return e5.RunC03Flood(w, idx-base)
+			}
 			if base := c03Base(w.Tier); idx >= base {
 				return e7.Run(w, idx-base, "C03")
 			}
@@ -130,6 +136,13 @@ func init() {
 		CaseTimeout:   300e9,
 		MinNontrivial: 20,
 	})
+}
+
+func c03FloodCases(tier string) int {
+	if tier == "thorough" {
+		return 3
+	}
+	return 1
 }
 
 func c03Base(tier string) int {
@@ -284,7 +297,7 @@ func init() {
 			"enumeration: EVERY placement of one fault (13 variants x 8 cycles x shard 0..2) on five schedules (thorough: all seven), a strided third on the others, 200 seed-sampled pairs (thorough: every pair on the three relief schedules, 8000 sampled pairs on the down-target schedule + 3000 sampled triples); after the last fault the C03 predicate must be reached within B quiet cycles and stay for 5; " +
 			"plus the restart fault on the REAL `kvass sidecar` process (8 / 64 cases, configuration pushed or from --config.file): assigned, killed, started twice more on the same volume, configuration pushed again as the coordinator would, no targets posted - the file given to Prometheus must list exactly the resumed targets in every life; " +
 			"plus 4/32 runs of the real processes (real coordinator binary, three real sidecar binaries) with a sidecar killed and restarted, the coordinator killed and restarted, or a shard unreachable for five cycles in the middle; " +
-			"real-process special fault (2/8): reload-then-wipe-sidecar - a reload, four cycles, then the fullest shard's sidecar returns on an empty volume; " +
+			"real-process special faults (2/8): reload-then-wipe-sidecar - a reload, four cycles, then the fullest shard's sidecar returns on an empty volume; and, with the sidecars in FILE mode (--config.file, the binary's default), a configuration roll-out (one target removed, one added) that reaches a shard while its Prometheus answers 500 to /-/reload; " +
 			"non-trivial = a fault was really applied (or the control); distinct = (schedule, fault placements)",
 		Assumptions: []string{
 			"faults are injected in the harness' wrappers around the real api.Get/api.Post, in the simulated StatefulSet and by rebuilding the sidecar on its store; a fault that cannot apply (no such shard at that time) is recorded as not applied",
